@@ -179,6 +179,29 @@ def nosimp_solutions(case, mode, h_rev):
     return [s2 for s2 in sols if set(n.loc_key for n in s2.relevant_nodes) <= set(h_rev)]
 
 
+def call_unsupported(exc):
+    return isinstance(exc, NotImplementedError) and "Unsupported OP yet: call_" in str(exc)
+
+
+def nosimp_slice_has_more_stores(case, mode, sol, h_rev):
+    """structural form of the same classifier, for slices whose constraints the z3 translator cannot
+    express (call operators): with apply_simp=False the slice of the same target and history contains a
+    store that the simplified slice lacks"""
+    def stores(s_):
+        out = set()
+        for lk in h_rev:
+            for ab in s_.irblock_slice(case.ircfg.blocks[lk]):
+                for d in ab:
+                    if d.is_mem():
+                        out.add((lk, d))
+        return out
+    try:
+        mine = stores(sol)
+        return any(stores(s2) - mine for s2 in nosimp_solutions(case, mode, h_rev))
+    except Exception:
+        return False
+
+
 def narrowed_by_simplification(case, mode, sol, res, elt, h_rev, mkenv, want, hook):
     """classifier of a value mismatch: (1) the slice works on a memory read narrower than the accesses of
     the program, and (2) the dependency graph without apply_simp, same target and history, gives the
@@ -191,8 +214,8 @@ def narrowed_by_simplification(case, mode, sol, res, elt, h_rev, mkenv, want, ho
             res2 = sol2.emul(case.ctx.lifter)
             if refsem.evaluate(res2[elt], mkenv(), hook) == want:
                 return True
-    except Exception:
-        return False
+    except Exception as exc:
+        return call_unsupported(exc) and nosimp_slice_has_more_stores(case, mode, sol, h_rev)
     return False
 
 
@@ -206,8 +229,8 @@ def narrowed_constraints(case, sol, h_rev, env_factory, follows):
             holds2 = z3_holds(list(sol2._solver.assertions()), env_factory(), case.regs_by_name)
             if holds2 is not None and holds2 == follows:
                 return True
-    except Exception:
-        return False
+    except Exception as exc:
+        return call_unsupported(exc) and nosimp_slice_has_more_stores(case, "implicit", sol, h_rev)
     return False
 
 
@@ -388,6 +411,14 @@ def run_targets(rec, rng, case, locs, head, pool, kind, base_wit, shape_key):
                     unresolved = sol.unresolved
                     h_rev = list(sol.history[::-1])
                     res = sol.emul(ctx.lifter)
+                except NotImplementedError as exc:
+                    if mode == "implicit" and "Unsupported OP yet: call_" in str(exc):
+                        # the z3 translator does not model call operators: a path condition that depends
+                        # on a call result cannot be expressed (documented limit, not a wrong slice)
+                        rec.count("implicit_condition_on_call_unsupported")
+                        continue
+                    rec.fail("%s: emul raises %s" % (mode, type(exc).__name__), repr(exc), wit)
+                    continue
                 except Exception as exc:
                     rec.fail("%s: emul raises %s" % (mode, type(exc).__name__), repr(exc), wit)
                     continue
@@ -421,6 +452,8 @@ def one_graph(rec, rng, ctxs, i):
                 indeg[t] = indeg.get(t, 0) + 1
     if any(v > 1 for v in indeg.values()):
         rec.count("graphs_with_join")
+    if any("call_func_ret" in str(src) for lk in locs for ab in ircfg.blocks[lk] for src in ab.values()):
+        rec.count("graphs_with_call_operator")
     case = make_case(rng, ctx, ircfg)
     blocks_w = [fmt_block(ircfg.blocks[l]) for l in locs]
     shape_key = "|".join(";".join(sorted("%s<-%s" % (str(d) if d.is_id() else "M", exprgen.shape(s))
@@ -506,6 +539,8 @@ def floors(tier, counters, evaluations):
         miss.append("implicit: fewer than one concrete input per random graph leaves its history")
     if counters.get("inputs_follow:lifted", 0) + counters.get("inputs_leave:lifted", 0) < 2 * lp:
         miss.append("implicit: fewer than two constraint evaluations per lifted program")
+    if counters.get("graphs_with_call_operator", 0) < 0.15 * g:
+        miss.append("fewer than 15% of the random graphs contain a modelled call operator")
     if counters.get("graphs_with_join", 0) < 0.2 * g:
         miss.append("fewer than 20% of the random graphs have a join")
     if counters.get("lifted_programs", 0) < 0.5 * (counters.get("lifted_programs", 0) + sum(
